@@ -153,7 +153,7 @@ fn c03_custom_set_remove_set_append() {
     std::mem::forget(res);
 }
 
-// @verif prop=C03 tier=thorough mem=10 unwindset="write_unchecked_to\.\d+ :8;Range<usize> as std::iter::Iterator>::try_fold.*response::headers::Header,:49" bounds="ops: x append(a) on absent; x(X-Custom,b) overwrite; x(X-Other,c); remove X-Custom; |a|=2,|b|=4,|c|=1"
+// @verif prop=C03 tier=off mem=10 unwindset="write_unchecked_to\.\d+ :8;Range<usize> as std::iter::Iterator>::try_fold.*response::headers::Header,:49" bounds="ops: x append(a) on absent; x(X-Custom,b) overwrite; x(X-Other,c); remove X-Custom; |a|=2,|b|=4,|c|=1"
 #[kani::proof]
 #[kani::stub(ohkami::util::unix_timestamp, stubs::unix_timestamp_zero)]
 #[kani::unwind(12)]
@@ -255,13 +255,13 @@ fn send_case(head: bool) {
     kani::cover!(body[0] != 0, "payload starting with another byte");
 }
 
-// @verif prop=C03 tier=thorough mem=10 timeout=900 unwindset="write_unchecked_to\.\d+ :8;Iter.*IndexMap.*\.0 :8;9write_all.*8WriteAll.*\.0 :3" bounds="send: 200 with a 3-byte symbolic payload through the real Response::send (payload arm): bytes written = status line + reserved size + body; every unchecked copy inside the reserved Vec"
+// @verif prop=C03 tier=off mem=10 timeout=900 unwindset="write_unchecked_to\.\d+ :8;Iter.*IndexMap.*\.0 :8;9write_all.*8WriteAll.*\.0 :3" bounds="send: 200 with a 3-byte symbolic payload through the real Response::send (payload arm): bytes written = status line + reserved size + body; every unchecked copy inside the reserved Vec"
 #[kani::proof]
 #[kani::stub(ohkami::util::unix_timestamp, stubs::unix_timestamp_zero)]
 #[kani::unwind(12)]
 fn c03_send_payload() { send_case(false) }
 
-// @verif prop=C03 tier=thorough mem=10 timeout=900 unwindset="write_unchecked_to\.\d+ :8;Iter.*IndexMap.*\.0 :8;9write_all.*8WriteAll.*\.0 :3" bounds="send after the HEAD rule of Router::handle: headers as for GET (Content-Length kept), no body bytes"
+// @verif prop=C03 tier=off mem=10 timeout=900 unwindset="write_unchecked_to\.\d+ :8;Iter.*IndexMap.*\.0 :8;9write_all.*8WriteAll.*\.0 :3" bounds="send after the HEAD rule of Router::handle: headers as for GET (Content-Length kept), no body bytes"
 #[kani::proof]
 #[kani::stub(ohkami::util::unix_timestamp, stubs::unix_timestamp_zero)]
 #[kani::unwind(12)]
